@@ -1,7 +1,7 @@
 #!/bin/bash
 # Runs every claimed check's quick (or thorough) command in sequence on /repo and validates evidence.
 tier=${1:-quick}
-cd /verif
+cd "$(dirname "$0")/.."
 rc=0
 for p in $(python3 -c "import json;print(' '.join(c['property_id'] for c in json.load(open('MANIFEST.json'))['checks']))"); do
   out=$(./run $p $tier 2>&1); r=$?
